@@ -9,7 +9,10 @@ def plist(s): return [[x.split("/")[0], int(x.split("/")[1])] for x in s.split("
 out = plist(args[args.index("--out") + 1]) if "--out" in args else []
 inp = plist(args[args.index("--in") + 1]) if "--in" in args else None
 text = sys.stdin.read()
-r = e1.run_task({"id": "one", "text": text, "in": inp, "out": out, "enabled": enabled, "V": mode, "tier": "thorough" if "--thorough" in args else "quick", "one_to_one": "--1to1" in args, "open_all": "--openall" in args})
+from vf import kf
+_t = {"id": "one", "text": text, "in": inp, "out": out, "enabled": enabled, "V": mode, "tier": "thorough" if "--thorough" in args else "quick", "one_to_one": "--1to1" in args, "open_all": "--openall" in args}
+_t["kf"] = kf.class_entries(kf.load(), enabled)
+r = e1.run_task(_t)
 print(r.get("result")); print("status:", r["status"], r.get("reason"), "changed", r.get("changed"), "IN", r.get("in"))
 for d in r.get("decided", []):
     print(" ", d["universe"], d["status"], d.get("reason"), [(q["q"], q.get("path"), q["verdict"]) for q in d["queries"]], d.get("instance_atoms"))
